@@ -28,7 +28,7 @@ RULE = ('case = (area, origin) with its whole fan (each ray checked). non-trivia
 ASSUMPTIONS = ['border = cells with y in {ymin,ymax} or x in {xmin,xmax}']
 EXHAUSTIVE_NOTE = 'all areas h,w<=6 (thorough <=11) x all origins, anchored at (0,0) and at shifted/negative offsets; 7x7 view with all origins'
 REQUIRED = {'quick': {'rays.checked': 5000, 'fans.checked': 300, 'cache.compared': 100, 'single_ray.checked': 300,
-                      'unobstructed_visibility': 50, 'cache.both_fans': 30}}
+                      'unobstructed_visibility': 50, 'cache.both_fans': 30, 'huge_areas': 8}}
 
 
 def check_ray(ctx, ray, origin, area, label, payload):
@@ -186,6 +186,15 @@ def run(ctx):
                 if ctx.mine(bi * 7 + oi):
                     fan_case(ctx, Area((0, h - 1), (0, w - 1)), Position(oy, ox))
                     unobstructed(ctx, h, w, Position(oy, ox))
+        # very elongated and large areas (rays of 100+ cells, fans of 256+ rays through the origin)
+        huge = [(1, 104, 0, 0), (1, 127, 0, 0), (1, 129, 0, 0), (1, 130, 0, 0), (3, 63, 1, 0), (15, 15, 14, 7), (15, 15, 0, 0),
+                (7, 31, 6, 15), (31, 7, 30, 3), (2, 200, 1, 199), (3, 108, 0, 0)] + ([(17, 17, 8, 8), (1, 300, 0, 150), (40, 3, 0, 1)] if ctx.thorough else [])
+        for hi, (h, w, oy, ox) in enumerate(huge):
+            if ctx.mine(hi + 3):
+                dy, dx = (0, 0) if hi % 2 == 0 else (-2, 5)
+                fan_case(ctx, Area((dy, dy + h - 1), (dx, dx + w - 1)), Position(dy + oy, dx + ox))
+                unobstructed(ctx, h, w, Position(oy, ox))
+                ctx.hit('huge_areas')
         if ctx.shard == 0:
             fan_case(ctx, Area((0, 6), (0, 6)), Position(6, 3))
             unobstructed(ctx, 7, 7, Position(6, 3))
